@@ -104,7 +104,8 @@ def _external(qualname):
     import posixpath
     import html
     table = {
-        "urllib.parse.quote": urllib.parse.quote, "urllib.parse.unquote": urllib.parse.unquote, "urllib.parse.urlsplit": urllib.parse.urlsplit,
+        "urllib.parse.quote": urllib.parse.quote, "urllib.parse.unquote": urllib.parse.unquote, "urllib.parse.quote_plus": urllib.parse.quote_plus, "urllib.parse.unquote_plus": urllib.parse.unquote_plus,
+        "urllib.parse.unquote_to_bytes": urllib.parse.unquote_to_bytes, "urllib.parse.urlencode": urllib.parse.urlencode, "urllib.parse.urldefrag": urllib.parse.urldefrag, "urllib.parse.urlsplit": urllib.parse.urlsplit,
         "urllib.parse.urlunsplit": urllib.parse.urlunsplit, "urllib.parse.urljoin": urllib.parse.urljoin, "urllib.parse.parse_qs": urllib.parse.parse_qs,
         "urllib.parse.parse_qsl": urllib.parse.parse_qsl, "os.path.splitext": posixpath.splitext, "posixpath.splitext": posixpath.splitext, "html.unescape": html.unescape,
     }
@@ -928,6 +929,8 @@ class _Interp(object):
                     return getattr(urllib.parse, ref.qualname.rpartition(".")[2])(*args, **kwargs)
                 except Exception as e:
                     raise Unknown("stdlib call raised %s" % e)
+            if ref is not None and ref.module is None and _external(ref.qualname) is not None:
+                return self.call_value(ref, args, kwargs)
             raise Unknown("call to %s" % f.id)
         raise Unknown("call shape")
 
